@@ -290,20 +290,25 @@ fn cmd_sos(a: &[Sx]) -> Result<String, String> {
 /// sod SCHEMA TARGET xBYTES MODE : single-object deserialization (slice | (chunks ...))
 fn cmd_sod(a: &[Sx]) -> Result<String, String> {
 	let schema = get_schema(&a[0])?;
-	let target = DTarget::from_sx(&a[1])?;
-	let bytes = a[2].bytes()?;
-	let (mh, ma) = a[3].head()?;
+	sod_with(&schema, &a[1..])
+}
+
+/// single-object deserialization with an already frozen schema; a = TARGET xBYTES MODE
+fn sod_with(schema: &serde_avro_fast::Schema, a: &[Sx]) -> Result<String, String> {
+	let target = DTarget::from_sx(&a[0])?;
+	let bytes = a[1].bytes()?;
+	let (mh, ma) = a[2].head()?;
 	CURRENT_TARGET.with(|c| *c.borrow_mut() = Some(target));
 	let res = match mh {
 		"slice" => {
 			dtarget::INPUT.with(|c| c.set((bytes.as_ptr() as usize, bytes.len())));
-			let r = serde_avro_fast::from_single_object_slice::<Recorded>(&bytes, &schema);
+			let r = serde_avro_fast::from_single_object_slice::<Recorded>(&bytes, schema);
 			dtarget::INPUT.with(|c| c.set((0, 0)));
 			r
 		}
 		"chunks" => {
 			let plan = ma.iter().map(|s| s.int::<usize>()).collect::<Result<Vec<_>, _>>()?;
-			serde_avro_fast::from_single_object_reader::<_, Recorded>(io::ChunkedReader::new(bytes.clone(), plan), &schema)
+			serde_avro_fast::from_single_object_reader::<_, Recorded>(io::ChunkedReader::new(bytes.clone(), plan), schema)
 		}
 		other => return Err(format!("unknown mode {other}")),
 	};
@@ -428,11 +433,13 @@ fn cmd_tojson(a: &[Sx]) -> Result<String, String> {
 fn cmd_mutseq(a: &[Sx]) -> Result<String, String> {
 	// mutseq START OP... : a history of observations and edits on ONE SchemaMut value
 	// START ::= (schema ..) | (json xTEXT)
-	// OP ::= fp | json | touch | clone | (set K (node ..)) | (push (node ..)) | freeze
+	// OP ::= fp | json | touch | clone | (set K (node ..)) | (push (node ..)) | freeze | (sos SVAL) | (sod TARGET xBYTES MODE)
 	// prints (ok R...) with one R per observing op:
 	//   fp     -> (fp xFINGERPRINT xCANONICALFORM) | (fp-err)   fingerprint asked FIRST, then the canonical form text (hook H1)
 	//   json   -> (json xTEXT) | (json-err)                      serde_json::to_string(&SchemaMut)
 	//   freeze -> (frozen xFINGERPRINT xJSON) | (freeze-err)     of a clone of the current value (the history goes on)
+	//   (sos V) -> (sos xMESSAGE) | (sos-err xMSG) | (freeze-err)   single-object encoding of V with a clone of the current value, frozen
+	//   (sod T xB MODE) -> (sod RESULT-OF-`sod`) | (freeze-err)     single-object decoding with a clone of the current value, frozen
 	use serde_avro_fast::schema::SchemaMut;
 	let (h, sa) = a[0].head()?;
 	let mut s: SchemaMut = match h {
@@ -481,6 +488,20 @@ fn cmd_mutseq(a: &[Sx]) -> Result<String, String> {
 			}
 			"freeze" => match s.clone().freeze() {
 				Ok(f) => out.push_str(&format!(" (frozen {} {})", hex(f.rabin_fingerprint()), esc(f.json()))),
+				Err(_) => out.push_str(" (freeze-err)"),
+			},
+			"sos" => match s.clone().freeze() {
+				Ok(f) => {
+					let v = sval::SVal::from_sx(&oa[0])?;
+					match serde_avro_fast::to_single_object_vec(&v, &mut serde_avro_fast::ser::SerializerConfig::new(&f)) {
+						Ok(b) => out.push_str(&format!(" (sos {})", hex(&b))),
+						Err(e) => out.push_str(&format!(" (sos-err {})", esc(&e.to_string()))),
+					}
+				}
+				Err(_) => out.push_str(" (freeze-err)"),
+			},
+			"sod" => match s.clone().freeze() {
+				Ok(f) => out.push_str(&format!(" (sod {})", sod_with(&f, oa)?)),
 				Err(_) => out.push_str(" (freeze-err)"),
 			},
 			other => return Err(format!("mutseq: unknown op {other}")),
